@@ -31,6 +31,7 @@ type Fixture struct {
 	MidKey  crypto.PrivKey
 	ArgKeys []string
 	MetaKey []string
+	values0 string
 }
 
 type Loader map[cid.Cid]*delegation.Token
@@ -63,7 +64,7 @@ func New(argKeys, metaKeys []string, decoded bool) (*Fixture, error) {
 	md, _ := did.FromPrivKey(mk)
 	var dopts []delegation.Option
 	for i, k := range metaKeys {
-		dopts = append(dopts, delegation.WithMeta(k, int64(i)))
+		dopts = append(dopts, delegation.WithMeta(k, longValue(i)))
 	}
 	pol := policy.Policy{}
 	if len(argKeys) > 0 {
@@ -104,7 +105,7 @@ func New(argKeys, metaKeys []string, decoded bool) (*Fixture, error) {
 		iopts = append(iopts, invocation.WithArgument(k, int64(i+1)))
 	}
 	for i, k := range metaKeys {
-		iopts = append(iopts, invocation.WithMeta(k, int64(i)))
+		iopts = append(iopts, invocation.WithMeta(k, longValue(i+100)))
 	}
 	inv, err := invocation.New(id, sd, command.MustParse("/x/y"), []cid.Cid{lc, c}, iopts...)
 	if err != nil {
@@ -119,8 +120,56 @@ func New(argKeys, metaKeys []string, decoded bool) (*Fixture, error) {
 			return nil, err
 		}
 	}
-	return &Fixture{Inv: inv, Dlg: d, Leaf: leaf, Loader: Loader{c: d, lc: leaf}, InvKey: ik, DlgKey: sk, MidKey: mk, ArgKeys: argKeys, MetaKey: metaKeys}, nil
+	f := &Fixture{Inv: inv, Dlg: d, Leaf: leaf, Loader: Loader{c: d, lc: leaf}, InvKey: ik, DlgKey: sk, MidKey: mk, ArgKeys: argKeys, MetaKey: metaKeys}
+	f.values0 = f.Values()
+	return f, nil
 }
+
+// longValue is a byte value longer than any "short value" threshold a printer might have (metadata values are
+// typically ciphertexts of 40 bytes and more)
+func longValue(i int) []byte {
+	b := make([]byte, 48)
+	for j := range b {
+		b[j] = byte(i*7 + j)
+	}
+	return b
+}
+
+// Values renders every argument and metadata VALUE of the three tokens (keys sorted), so that a read-only operation
+// that rewrites a stored value — not only the key order — is seen.
+func (f *Fixture) Values() string {
+	var parts []string
+	dump := func(prefix string, it func(func(string, datamodel.Node) bool)) {
+		var kv []string
+		it(func(k string, v datamodel.Node) bool {
+			s := ""
+			switch v.Kind() {
+			case datamodel.Kind_Bytes:
+				b, _ := v.AsBytes()
+				s = fmt.Sprintf("%x", b)
+			case datamodel.Kind_Int:
+				n, _ := v.AsInt()
+				s = fmt.Sprint(n)
+			case datamodel.Kind_String:
+				s, _ = v.AsString()
+			default:
+				s = v.Kind().String()
+			}
+			kv = append(kv, k+"="+s)
+			return true
+		})
+		sort.Strings(kv)
+		parts = append(parts, prefix+strings.Join(kv, ","))
+	}
+	dump("inv.args:", f.Inv.Arguments().Iter())
+	dump("inv.meta:", f.Inv.Meta().Iter())
+	dump("dlg.meta:", f.Dlg.Meta().Iter())
+	dump("leaf.meta:", f.Leaf.Meta().Iter())
+	return strings.Join(parts, ";")
+}
+
+// ValuesChanged reports whether any stored value differs from what it was when the fixture was built.
+func (f *Fixture) ValuesChanged() bool { return f.Values() != f.values0 }
 
 func keysOf(it func(func(string, datamodel.Node) bool)) []string {
 	var ks []string
@@ -312,6 +361,8 @@ func (f *Fixture) Run(op string) ([]string, string) {
 			return nil, "ToSealed(leaf delegation): " + err.Error()
 		}
 		_ = f.Dlg.Meta().String()
+		_ = f.Inv.Meta().String()
+		_ = f.Leaf.Meta().String()
 		_ = f.Dlg.Policy().String()
 		_ = f.Leaf.Policy().String()
 		n, _ := f.Inv.Arguments().ToIPLD()
@@ -376,6 +427,9 @@ func Concurrent(twin, f *Fixture, workers, rounds int) string {
 	}
 	if n := f.SpareWritten(); n != 0 {
 		return fmt.Sprintf("read-only use wrote %d cell(s) into the spare capacity of a shared delegation's policy slice", n)
+	}
+	if f.ValuesChanged() {
+		return "read-only use changed a stored argument or metadata value"
 	}
 	return "ok"
 }
